@@ -127,9 +127,9 @@ fn one_system(st: &mut Stats, rng: &mut Rng) {
     let sys = gen_any(rng, n);
     let d = sys.dense();
     let a = match catch(|| sys.sparse(rng)) { Outcome::Ok(a) => a, _ => return };
-    let bkind = rng.below(6);
-    let b: Vec<f64> = match bkind { 0 => vec![0.0; n], 1 => (0..n).map(|_| rng.sym() * 1e6).collect(), 2 => (0..n).map(|_| rng.sym() * 1e-6).collect(), _ => (0..n).map(|_| rng.sym()).collect() };
-    let x0: Vec<f64> = match rng.below(3) { 0 => vec![0.0; n], 1 => (0..n).map(|_| rng.sym()).collect(), _ => (0..n).map(|_| rng.sym() * 1e3).collect() };
+    let bkind = rng.below(8);
+    let b: Vec<f64> = match bkind { 0 => vec![0.0; n], 1 => (0..n).map(|_| rng.sym() * 1e6).collect(), 2 => (0..n).map(|_| rng.sym() * 1e-6).collect(), 3 => { let sc = *rng.pick(&[1e-18, 1e-40, 1e40, 1e-80]); (0..n).map(|_| rng.sym() * sc).collect() } _ => (0..n).map(|_| rng.sym()).collect() };
+    let x0: Vec<f64> = match rng.below(4) { 0 | 1 => vec![0.0; n], 2 => (0..n).map(|_| rng.sym()).collect(), _ => (0..n).map(|_| rng.sym() * 1e3).collect() };
     let tol = rng.logpos(1e-12, 1e-2);
     let budget = *rng.pick(&[0usize, 1, 2, 3, 4, n, 3 * n + 10, 20 * n + 50]);
     let bv = Vector::create(b.clone());
@@ -170,7 +170,7 @@ pub fn run(ctx: &Ctx) -> Report {
     let units = ctx.vol(6000, 150_000);
     let stats = par_run(ctx, TAG, units, |_u, rng, st| { for _ in 0..4 { one_system(st, rng); } });
     let mut rep = Report::new(stats,
-        "random square sparse systems of order 1..60 of 8 kinds (SPD dominant, SPD Gram, nonsymmetric dominant, nonsymmetric general, symmetric indefinite, row-scaled 2^+-20, nearly singular, exactly singular), rhs zero/1e6/1e-6/O(1), x0 zero/random/1e3*random, tol log-uniform 1e-12..1e-2, budgets {0..4,n,3n+10,20n+50}; all five solver variants on each. Judged: no panic, determinism, zero budget leaves x bit-identical, and whenever Ok(it): it<=max_iter, x finite, true residual (double-double, dense copy) <= tol + 256 (QMR: 16384) drift units u*(it+1)*(||A||_F*max_k||x_k||+||b||)/||b||* (max over iterates by budget replay when needed). Non-trivial: an Ok outcome with it>=1 on n>=2; distinct = distinct (solver,class,entries,tol) hashes");
+        "random square sparse systems of order 1..60 of 8 kinds (SPD dominant, SPD Gram, nonsymmetric dominant, nonsymmetric general, symmetric indefinite, row-scaled 2^+-20, nearly singular, exactly singular), rhs zero/1e+-6/1e-18/1e+-40/1e-80/O(1), x0 zero/random/1e3*random, tol log-uniform 1e-12..1e-2, budgets {0..4,n,3n+10,20n+50}; all five solver variants on each. Judged: no panic, determinism, zero budget leaves x bit-identical, and whenever Ok(it): it<=max_iter, x finite, true residual (double-double, dense copy) <= tol + 256 (QMR: 16384) drift units u*(it+1)*(||A||_F*max_k||x_k||+||b||)/||b||* (max over iterates by budget replay when needed). Non-trivial: an Ok outcome with it>=1 on n>=2; distinct = distinct (solver,class,entries,tol) hashes");
     rep.assumptions = vec!["drift allowance 256 units (QMR 16384) fixed; measured worst excess on the unchanged tree is recorded under maxima excess_units:* (2.3 / 58 over 3.6 M outcomes)".into(), "nothing is demanded when the solver answers Err (that half is C09)".into()];
     rep.min_nontrivial = 300;
     rep
